@@ -2,6 +2,7 @@ import DafRel.Props.C03
 #print axioms DafRel.Props.C03.backtracking_sound
 #print axioms DafRel.Props.C03.backtracking_sound_any_preferred_engine
 #print axioms DafRel.Props.C03.apply_with_sql_preferred_engine_sound
+#print axioms DafRel.Props.C03.apply_with_transfer_to_preferred_engine_sound
 #print axioms DafRel.Props.C03.apply_on_sql_target_sound
 #print axioms DafRel.Props.C03.apply_with_options_sound
 #print axioms DafRel.Props.C03.same_as_plain_application
